@@ -275,3 +275,79 @@ from contracts import c01_special  # noqa: real/complex dilogarithm, Clausen
 from contracts import c01_fps  # noqa: f_PS family definitions
 from contracts import ieee_finite as _ieee; _ieee.register('C01')  # noqa: IEEE finiteness on the whole domain
 from contracts import spec_source as _ss; _ss.register_c01()  # noqa: provenance of the transcribed definitions (math/ffunctions.m)
+
+# ---------------------------------------------------------------------------------------------------
+# BOUNDED stand-in for what the real-arithmetic contracts cannot see (rounding inside a branch): the REAL functions in native doubles against a 160-digit evaluation of the
+# definitions on a deterministic sweep of 957 arguments (30 per decade over [1e-14, 1e12] plus clusters on both sides of 1, 1/4, 100, 1e5), tolerance 1e-7 as in the property.
+# One goal per function and region of the argument, so that a listed finding in one region does not hide a new one elsewhere.
+# ---------------------------------------------------------------------------------------------------
+def _sweep_points():
+    pts = [10 ** (-14 + 26 * k / 800.0) for k in range(801)]
+    for c in (1.0, 0.25, 100.0, 1e5, 0.5, 2.0):
+        for e in (1e-12, 1e-9, 1e-6, 1e-4, 1e-3, 0.01, 0.029, 0.031, 0.039, 0.041, 0.05, 0.08, 0.1):
+            pts += [c * (1 + e), c * (1 - e)]
+    return sorted(set(p for p in pts if 1e-14 <= p <= 1e12))
+
+SWEEP_REGIONS = (('x<1e4', 0.0, 1e4), ('1e4<=x<5e7', 1e4, 5e7), ('x>=5e7', 5e7, float('inf')))
+
+def _sweep_eval(wd, fns):
+    """{fn: [(x, real value, relative error)]}"""
+    import mpmath as mp
+    from gm2v import native
+    from contracts.c01_fps import DEFS_NUM
+    pts = _sweep_points()
+    exe = native.build_scalar_driver(wd, [FF], [DL, 'src/gm2_numerics.cpp'], [(fn, '%s(a[0])' % fn, 1) for fn in fns])
+    out = {}
+    old = mp.mp.dps
+    mp.mp.dps = 160
+    try:
+        for fn in fns:
+            vals = native.run_scalar_driver(exe, [(fn, [p]) for p in pts])
+            rows = []
+            for p, v in zip(pts, vals):
+                X = mp.mpf(p)
+                if fn in SPEC1:
+                    if X == 1:
+                        continue
+                    N, Den, v1, v0 = SPEC1[fn]
+                    want = N(X, mp.log(X), mp.polylog(2, 1 - X)) / Den(X)
+                else:
+                    want = DEFS_NUM[fn](X)
+                want = mp.re(want)
+                err = abs(mp.mpf(v) - want) / abs(want) if want != 0 else abs(mp.mpf(v))
+                rows.append((p, v, float(err)))
+            out[fn] = rows
+    finally:
+        mp.mp.dps = old
+    return out
+
+SWEEP_FNS = list(SPEC1) + ['f_PS', 'f_S', 'f_sferm', 'f_CSl', 'F1', 'F1t', 'F2', 'F3']
+
+def make_accuracy_sweep(fn):
+    def replay(model, wd):
+        rows = _sweep_eval(wd, [fn])[fn]
+        bad = [(p, v, e) for p, v, e in rows if e > 1e-7]
+        return bool(bad), '%s: %d of %d sweep arguments off by more than 1e-7; e.g. %s' % (fn, len(bad), len(rows), ', '.join('%s(%r) = %r (rel. error %.3g)' % (fn, p, v, e) for p, v, e in bad[:3]))
+    @obligation('C01.accuracy.sweep.%s' % fn, fns=[(FF, fn)], backend='bounded', replay=replay)
+    def ob(ctx, fn=fn):
+        """BOUNDED stand-in (957 arguments, REAL code in native doubles vs the definition at 160 digits): relative error <= 1e-7"""
+        import tempfile, shutil
+        wd = tempfile.mkdtemp(prefix='gm2v_acc_')
+        try:
+            rows = _sweep_eval(wd, [fn])[fn]
+        finally:
+            shutil.rmtree(wd, ignore_errors=True)
+        for tag, lo, hi in SWEEP_REGIONS:
+            sel = [(p, v, e) for p, v, e in rows if lo <= p < hi]
+            bad = [(p, v, e) for p, v, e in sel if not e <= 1e-7]
+            worst = max(sel, key=lambda r: r[2]) if sel else None
+            if bad:
+                ctx.record(tag, FAILED, 'bounded', 0, 'BOUNDED: %d of %d arguments off by more than 1e-7: first %s(%r) = %r (rel. error %.3g), worst %s(%r) (rel. error %.3g)' % (
+                    len(bad), len(sel), fn, bad[0][0], bad[0][1], bad[0][2], fn, worst[0], worst[2]), model={'_float': {'x': bad[0][0]}}, solver='native execution vs mpmath (160 digits)', kind='bounded')
+            else:
+                ctx.record(tag, PROVED, 'bounded', 0, 'BOUNDED: %d arguments, worst relative error %.3g at %r' % (len(sel), worst[2] if worst else 0.0, worst[0] if worst else None),
+                           solver='native execution vs mpmath (160 digits)', kind='bounded')
+    return ob
+
+for _fn in SWEEP_FNS:
+    make_accuracy_sweep(_fn)
